@@ -5,7 +5,8 @@
   router.MessageRouter.addMatch        (parameter, key) pairs of the `if p: r.add('key', v)` chain, in order,
                                        and how the value of the message-type constraint is computed
                                                                   -> Gen.Route.addKeys, Gen.Route.mtypeLookup (AST)
-  client.DBusClientConnection.addMatch the keys of the rule text, in order  -> Gen.Route.clientTextKeys     (AST)
+  client.DBusClientConnection.addMatch (text key, variable) pairs          -> Gen.Route.clientTextKeys     (AST)
+  objects.RemoteDBusObject.notifyOnSignal  keywords of its addMatch call    -> Gen.Route.notifyKwargs       (AST)
   bus.Bus.dbus_AddMatch                the keys of the kwargs literal       -> Gen.Route.busKwargKeys       (AST)
 
 Anything outside the restricted shapes recognised here is a translator failure (a broken obligation).
@@ -41,13 +42,34 @@ def fn_ast(obj):
     return mod.body[0]
 
 
+CANON_PARAMS = ['mtype', 'sender', 'interface', 'member', 'path', 'destination', 'path_namespace', 'args',
+                'arg_paths', 'arg0namespace']
+CANON_SIMPLE = ['_messageType', 'mtype', 'sender', 'interface', 'member', 'path', 'destination']
+CANON_BUS = ['mtype', 'sender', 'interface', 'member', 'path', 'path_namespace', 'destination', 'args', 'arg_paths',
+             'arg0namespace']
+CANON_TEXT = ['type', 'sender', 'interface', 'member', 'path', 'path_namespace', 'destination', 'arg%d', 'arg%dpath',
+              'arg0namespace']
+
+
+def canon_sorted(items, order, key=lambda x: x):
+    """Sort by position in `order` (unknown entries last, alphabetically).  The order of the `if` chain in
+    addMatch and of the `add(...)` calls in the client is not observable through the property (a rule is
+    a conjunction; the order of the items of a rule text carries no meaning), so the table is emitted in a
+    canonical order and a mere reordering in the source changes nothing here."""
+    return sorted(items, key=lambda x: (order.index(key(x)) if key(x) in order else len(order), key(x)))
+
+
+def _stmts(nodes):
+    return [ast.unparse(n) for n in nodes]
+
+
 def simple_keys(router):
     f = fn_ast(router.Rule.add)
     found = []
     for node in ast.walk(f):
         if isinstance(node, ast.If) and isinstance(node.test, ast.Compare) and len(node.test.ops) == 1 \
-                and isinstance(node.test.ops[0], ast.In) and isinstance(node.test.left, ast.Name) \
-                and node.test.left.id == 'key':
+                and isinstance(node.test.ops[0], ast.In) and isinstance(node.test.left, ast.Name):
+            keyvar = node.test.left.id
             tup = node.test.comparators[0]
             if not isinstance(tup, (ast.Tuple, ast.List, ast.Set)):
                 raise ValueError('Rule.add: `key in <non-literal>`')
@@ -56,19 +78,24 @@ def simple_keys(router):
                 if not (isinstance(e, ast.Constant) and isinstance(e.value, str)):
                     raise ValueError('Rule.add: non-string key in the tuple')
                 keys.append(e.value)
-            # the body must append to self.simple, the else branch must setattr
-            body_src = ast.unparse(node.body[0])
-            else_src = ast.unparse(node.orelse[0]) if node.orelse else ''
-            if body_src != 'self.simple.append((key, value))' or else_src != 'setattr(self, key, value)':
-                raise ValueError('Rule.add: unexpected branches %r / %r' % (body_src, else_src))
+            # semantic shape: the `in` branch appends (key, value) to self.simple, the other branch sets the
+            # attribute; extra statements (logging, comments) do not matter
+            params = [a.arg for a in f.args.args]
+            valvar = params[2] if len(params) > 2 else 'value'
+            body = _stmts(node.body)
+            orelse = _stmts(node.orelse)
+            if 'self.simple.append((%s, %s))' % (keyvar, valvar) not in body:
+                raise ValueError('Rule.add: the simple branch does not append (key, value): %r' % (body,))
+            if 'setattr(self, %s, %s)' % (keyvar, valvar) not in orelse:
+                raise ValueError('Rule.add: the other branch does not setattr(self, key, value): %r' % (orelse,))
             found.append(keys)
     if len(found) != 1:
         raise ValueError('Rule.add: expected exactly one `if key in (...)`, found %d' % len(found))
-    return found[0]
+    return canon_sorted(found[0], CANON_SIMPLE)          # membership test: order is irrelevant
 
 
 def add_keys(router):
-    """[(param, key)], mtype lookup mode ('raw' | 'get')."""
+    """[(param, key)] in canonical order, mtype lookup mode ('raw' | 'get')."""
     f = fn_ast(router.MessageRouter.addMatch)
     pairs = []
     lookup = None
@@ -80,7 +107,8 @@ def add_keys(router):
         p = node.test.id
         call = node.body[0]
         if not (isinstance(call, ast.Expr) and isinstance(call.value, ast.Call)
-                and ast.unparse(call.value.func) == 'r.add' and len(call.value.args) == 2
+                and isinstance(call.value.func, ast.Attribute) and call.value.func.attr == 'add'
+                and len(call.value.args) == 2
                 and isinstance(call.value.args[0], ast.Constant) and isinstance(call.value.args[0].value, str)):
             raise ValueError('addMatch: unexpected body under `if %s`: %s' % (p, ast.unparse(call)))
         key = call.value.args[0].value
@@ -96,36 +124,72 @@ def add_keys(router):
         elif mode != 'raw':
             raise ValueError('addMatch: only the message type may be translated through _mtypes')
         pairs.append((p, key))
-    # the tail of the function must allocate the id the way the model does
-    tail = [ast.unparse(n) for n in f.body if not isinstance(n, ast.If)]
-    expected_tail = ['r = Rule(callback, self._id, self)', 'i = self._id', 'self._id += 1', 'self._rules[i] = r', 'return i']
-    if tail != expected_tail:
-        raise ValueError('addMatch: id allocation differs from the modelled one: %r' % (tail,))
+    # id allocation, semantically: some name takes the value of self._id before self._id is incremented by one,
+    # the rule is stored in self._rules under that name and that name is returned (variable names are free)
+    idvar = None
+    incremented = stored = returned = False
+    for n in f.body:
+        if isinstance(n, ast.Assign) and len(n.targets) == 1 and isinstance(n.targets[0], ast.Name) \
+                and ast.unparse(n.value) == 'self._id' and not incremented:
+            idvar = n.targets[0].id
+        elif isinstance(n, ast.AugAssign) and ast.unparse(n.target) == 'self._id' and isinstance(n.op, ast.Add) \
+                and ast.unparse(n.value) == '1':
+            if incremented:
+                raise ValueError('addMatch: self._id incremented twice')
+            incremented = True
+        elif isinstance(n, ast.Assign) and len(n.targets) == 1 and isinstance(n.targets[0], ast.Subscript) \
+                and ast.unparse(n.targets[0].value) == 'self._rules':
+            stored = idvar is not None and ast.unparse(n.targets[0].slice) == idvar
+        elif isinstance(n, ast.Return):
+            returned = idvar is not None and n.value is not None and ast.unparse(n.value) == idvar
+    if not (idvar and incremented and stored and returned):
+        raise ValueError('addMatch: id allocation differs from the modelled one (id := self._id; self._id += 1; '
+                         'self._rules[id] = rule; return id)')
     if lookup is None:
         raise ValueError('addMatch: no `if mtype:` branch')
-    return pairs, lookup
+    return canon_sorted(pairs, CANON_PARAMS, key=lambda x: x[0]), lookup
+
+
+def _eval_expr(node, env):
+    return eval(compile(ast.Expression(body=node), '<c12-table>', 'eval'), {'__builtins__': {}}, dict(env))
 
 
 def client_text_keys(client):
+    """[(text key, variable written under it)] in canonical order; the item format and the separator are
+    checked by evaluating the source's own expressions on sample values."""
     f = fn_ast(client.DBusClientConnection.addMatch)
-    keys = []
+    pairs = []
+    inner = None
     for node in ast.walk(f):
-        if isinstance(node, ast.Call) and isinstance(node.func, ast.Name) and node.func.id == 'add' and node.args:
-            a = node.args[0]
+        if isinstance(node, ast.FunctionDef) and node.name == 'add' and node is not f:
+            inner = node
+        if isinstance(node, ast.Call) and isinstance(node.func, ast.Name) and node.func.id == 'add' and len(node.args) == 2:
+            a, v = node.args
             if isinstance(a, ast.Constant) and isinstance(a.value, str):
-                keys.append((node.lineno, node.col_offset, a.value))
-            elif isinstance(a, ast.BinOp) and isinstance(a.left, ast.Constant):
-                keys.append((node.lineno, node.col_offset, a.left.value))
+                k = a.value
+            elif isinstance(a, ast.BinOp) and isinstance(a.left, ast.Constant) and isinstance(a.op, ast.Mod):
+                k = a.left.value
             else:
                 raise ValueError('client.addMatch: unexpected key expression ' + ast.unparse(a))
-    keys.sort()
-    # the item format
-    fmt = [ast.unparse(n) for n in ast.walk(f) if isinstance(n, ast.JoinedStr)]
-    if fmt != ['f"{k}=\'{v}\'"']:
-        raise ValueError('client.addMatch: item format is not k=\'v\': %r' % (fmt,))
-    if "rule = ','.join(l)" not in [ast.unparse(n) for n in f.body]:
-        raise ValueError('client.addMatch: items are not joined by a comma')
-    return [k for _, _, k in keys]
+            pairs.append((k, ast.unparse(v)))
+    if inner is None:
+        raise ValueError('client.addMatch: local function add(k, v) not found')
+    # the item format: whatever expression is appended, it must produce k='v'
+    appended = [n.args[0] for n in ast.walk(inner)
+                if isinstance(n, ast.Call) and isinstance(n.func, ast.Attribute) and n.func.attr == 'append' and n.args]
+    kn, vn = [a.arg for a in inner.args.args][:2]
+    if len(appended) != 1 or _eval_expr(appended[0], {kn: 'K', vn: 'V'}) != "K='V'":
+        raise ValueError("client.addMatch: an item is not written as k='v'")
+    guards = [ast.unparse(n.test) for n in ast.walk(inner) if isinstance(n, ast.If)]
+    if guards != ['%s is not None' % vn]:
+        raise ValueError('client.addMatch: add() is not guarded by `v is not None`: %r' % (guards,))
+    # the separator: the value assigned to `rule`, evaluated on a sample list
+    joined = [n.value for n in f.body if isinstance(n, ast.Assign) and ast.unparse(n.targets[0]) == 'rule']
+    lname = [ast.unparse(n.targets[0]) for n in f.body
+             if isinstance(n, ast.Assign) and isinstance(n.value, ast.List) and not n.value.elts]
+    if len(joined) != 1 or len(lname) != 1 or _eval_expr(joined[0], {lname[0]: ['A', 'B']}) != 'A,B':
+        raise ValueError('client.addMatch: the items are not joined by a comma')
+    return canon_sorted(pairs, CANON_TEXT, key=lambda x: x[0])
 
 
 def bus_kwarg_keys(bus):
@@ -138,12 +202,22 @@ def bus_kwarg_keys(bus):
                         and isinstance(v, ast.Constant) and v.value is None):
                     raise ValueError('dbus_AddMatch: kwargs literal is not {str: None}')
                 keys.append(k.value)
-            return keys
+            return canon_sorted(keys, CANON_BUS)
     raise ValueError('dbus_AddMatch: kwargs literal not found')
 
 
+def notify_kwargs(objects):
+    """The keyword arguments of the addMatch call made by RemoteDBusObject.notifyOnSignal: [(keyword, source text)]."""
+    f = fn_ast(objects.RemoteDBusObject.notifyOnSignal)
+    calls = [n for n in ast.walk(f) if isinstance(n, ast.Call) and isinstance(n.func, ast.Attribute)
+             and n.func.attr == 'addMatch']
+    if len(calls) != 1 or len(calls[0].args) != 1:
+        raise ValueError('notifyOnSignal: expected one addMatch(callback, **kw) call')
+    return canon_sorted([(k.arg, ast.unparse(k.value)) for k in calls[0].keywords], CANON_PARAMS, key=lambda x: x[0])
+
+
 def emit(repo):
-    from txdbus import router, client, bus
+    from txdbus import router, client, bus, objects
     mt = router._mtypes
     if not isinstance(mt, dict) or not all(isinstance(k, str) and isinstance(v, int) and not isinstance(v, bool) and v >= 0
                                            for k, v in mt.items()):
@@ -152,28 +226,33 @@ def emit(repo):
     pairs, lookup = add_keys(router)
     ck = client_text_keys(client)
     bk = bus_kwarg_keys(bus)
+    nk = notify_kwargs(objects)
     L = []
     L.append('/-! GENERATED by tools/tables/c12_route.py from txdbus/router.py, client.py, bus.py - do not edit. -/')
     L.append('namespace Txdbus.Gen.Route')
     L.append('')
-    L.append('/-- `router._mtypes` in dict order. -/')
+    L.append('/-- `router._mtypes`, sorted by code. -/')
     L.append('def mtypes : List (List Char × Nat) :=')
-    L.append('  ' + llist('(%s, %d)' % (lstr(k), v) for k, v in mt.items()))
+    L.append('  ' + llist('(%s, %d)' % (lstr(k), v) for k, v in sorted(mt.items(), key=lambda kv: (kv[1], kv[0]))))
     L.append('')
     L.append('/-- the tuple of `Rule.add`: keys compared with `getattr(m, key) != value`. -/')
     L.append('def simpleKeys : List (List Char) :=')
     L.append('  ' + llist(lstr(k) for k in sk))
     L.append('')
-    L.append('/-- `MessageRouter.addMatch`: (parameter, key handed to `Rule.add`) in the order of the `if` chain. -/')
+    L.append('/-- `MessageRouter.addMatch`: (parameter, key handed to `Rule.add`) canonical order (the order of the `if` chain is not observable). -/')
     L.append('def addKeys : List (List Char × List Char) :=')
     L.append('  ' + llist('(%s, %s)' % (lstr(p), lstr(k)) for p, k in pairs))
     L.append('')
     L.append('/-- `true`: the type constraint is stored as `_mtypes.get(mtype, mtype)`; `false`: as given. -/')
     L.append('def mtypeLookup : Bool := %s' % ('true' if lookup == 'get' else 'false'))
     L.append('')
-    L.append('/-- keys written by `DBusClientConnection.addMatch`, in text order (`arg` stands for `arg%d`, `arg%dpath`). -/')
-    L.append('def clientTextKeys : List (List Char) :=')
-    L.append('  ' + llist(lstr(k) for k in ck))
+    L.append('/-- `DBusClientConnection.addMatch`: (key of the rule text, variable written under it), canonical order. -/')
+    L.append('def clientTextKeys : List (List Char × List Char) :=')
+    L.append('  ' + llist('(%s, %s)' % (lstr(k), lstr(v)) for k, v in ck))
+    L.append('')
+    L.append('/-- keyword arguments of the `addMatch` call in `RemoteDBusObject.notifyOnSignal`: (keyword, source text). -/')
+    L.append('def notifyKwargs : List (List Char × List Char) :=')
+    L.append('  ' + llist('(%s, %s)' % (lstr(k), lstr(v)) for k, v in nk))
     L.append('')
     L.append('/-- keys of the `kwargs` literal of `Bus.dbus_AddMatch`. -/')
     L.append('def busKwargKeys : List (List Char) :=')
